@@ -2898,7 +2898,20 @@ pub fn inject(proj: &Project, which: usize, d: &mut Dec) -> Option<Injected> {
                 return None;
             }
             let (p, tr, ms, t) = cands[d.below(cands.len())].clone();
-            let text = impl_text(proj, p, &tr, &ms, &t)?;
+            let mut text = impl_text(proj, p, &tr, &ms, &t)?;
+            if kind == "orphan-impl-builtin-type" {
+                // builtin type constructors are nobody's local types either
+                let tt = proj.ty_text(p, &t);
+                let wrapped = match d.below(4) {
+                    0 => Some(format!("Vec[{tt}]")),
+                    1 => Some(format!("Ref[{tt}]")),
+                    2 => Some(format!("({tt}, {tt})")),
+                    _ => None,
+                };
+                if let Some(w) = wrapped {
+                    text = text.replace(&format!("for {tt} {{"), &format!("for {w} {{")).replace(&format!("self: {tt}"), &format!("self: {w}"));
+                }
+            }
             let mut uses = vec![tr.0];
             if let Some(r) = t.nominal() {
                 uses.push(r.0);
